@@ -13,8 +13,8 @@ def gen_cfl(wd):
     mac = slicer.between(MD, "#define INCRMENT_CAND_TOTAL_COUNT(cnt)", "MULTI_LINE_MACRO_END\n", True)
     open(os.path.join(wd, "c20_cfl.inc"), "w").write(mac + "\n" + slicer.functions(MD, ["inject_filter_intra_candidates", "inject_palette_candidates"]))
 META = {
-    "level_text": "The real signal-derivation functions that turn the configuration's tool switches into sequence-header and frame-level control fields, executed for EVERY combination of the switches (in their accepted ranges) and every picture state (preset 0..8, slice type, temporal layer, screen-content flag, resolution class): each tool the configuration turns off (loop filter, CDEF, loop restoration incl. self-guided/Wiener, palette, intra block copy, warped motion, intra edge filter) is off in the field the bitstream writer and mode decision read.",
-    "level_note": "Gate-level only: that mode decision never *chooses* a disabled tool per block (OBMC, filter-intra, CfL, inter-intra, global motion, superres) and that the header writer copies these fields faithfully are not decided here; the per-picture tile layout computed by set_tile_info is decided (query tile_layout_as_requested); that write_tile_info_max_tile serialises it faithfully is not.",
+    "level_text": "One block-level tool is decided too: with chroma-from-luma configured off, the real candidate injectors inject_filter_intra_candidates and inject_palette_candidates never produce a candidate with the CfL chroma mode. The real signal-derivation functions that turn the configuration's tool switches into sequence-header and frame-level control fields, executed for EVERY combination of the switches (in their accepted ranges) and every picture state (preset 0..8, slice type, temporal layer, screen-content flag, resolution class): each tool the configuration turns off (loop filter, CDEF, loop restoration incl. self-guided/Wiener, palette, intra block copy, warped motion, intra edge filter) is off in the field the bitstream writer and mode decision read.",
+    "level_note": "Gate-level only: that mode decision never *chooses* a disabled tool per block (OBMC, filter-intra, CfL of regular intra candidates, inter-intra, global motion, superres) and that the header writer copies these fields faithfully are not decided here; the per-picture tile layout computed by set_tile_info is decided (query tile_layout_as_requested); that write_tile_info_max_tile serialises it faithfully is not.",
     "technique": "CBMC on verbatim function slices, all switch values and picture states symbolic",
     "assumptions": ["switch values within the ranges verify_settings accepts"],
     "outside": ["block-level tool use other than the CfL chroma mode of filter-intra / palette candidates", "serialisation of the tile info", "superres"],
@@ -24,7 +24,7 @@ def queries(tier):
                   bound="all tool-switch values x presets 0..8 x slice types x temporal layers 0..5 x screen-content flag", what="configured-off tools are off in the derived control fields"),
             Query(name="sequence_level_switches", harness="C20/tools.c", gen=gen, unwind=8, defines=["SEQ_ONLY=1"], funcs=[RC + ":signal_derivation_pre_analysis_oq_scs"], timeout=900,
                   bound="all sequence-level switch values x presets", what="sequence-header tool flags are single bits that honour explicit on/off settings"),
-            ] + [Query(name="cfl_off_no_cfl_candidates_paeth%d_pal%d" % (pa, np_), harness="C20/cfl.c", gen=gen_cfl, unwind=16, timeout=900, defines=["PAETH=%d" % pa, "NPAL=%d" % np_], flags=["--slice-formula", "--object-bits", "10"],
+            ] + [Query(name="cfl_off_no_cfl_candidates_paeth%d_pal%d" % (pa, np_), harness="C20/cfl.c", gen=gen_cfl, unwind=16, timeout=900, defines=["PAETH=%d" % pa, "NPAL=%d" % np_, "VIN_KEEP_ALL=1"], flags=["--slice-formula", "--object-bits", "10"],
                   funcs=[MD + ":inject_filter_intra_candidates", MD + ":inject_palette_candidates"],
                   bound="every block width/height 4..128, any block size enum / chroma transform size, chroma level 0..3, per-block CfL switch, disable_cfl_flag -1/0/1, paeth filter-intra %s, exactly %d palette(s) of any size from the (stubbed) palette search, any transform type from the (stubbed) av1_get_tx_type; inject_intra_candidates (regular intra) is outside" % ("on" if pa else "off", np_),
                   what="with chroma-from-luma configured off, no filter-intra or palette candidate carries the CfL chroma mode")
